@@ -2,10 +2,17 @@
 
 P = {
     "id": "C15",
-    "claimed": False,
-    "coq_targets": ["C15/Spec.vo", "Run/Eval_C15.vo"],
+    "claimed": True,
+    "coq_targets": ["C15/Spec.vo", "C15/Proofs.vo", "Properties/C15.vo", "Run/Eval_C15.vo"],
     "theorems_module": "Properties.C15",
-    "theorems": [],
+    "theorems": [
+        "C15_view_wellformed", "C15_view_is_request_path",
+        "C15_wire_path_exact", "C15_decoded_path", "C15_scheme_rewritten", "C15_request_line", "C15_query_untouched",
+        "C15_headers_name_by_name", "C15_pipeline_header_wins", "C15_pipeline_host_wins", "C15_host_is_forward_to",
+        "C15_no_forwarded_passthrough", "C15_forwarded_extended_by_peer", "C15_method_body_untouched",
+        "C15_F1_refuted", "C15_F2_refuted", "C15_F3_refuted", "C15_F4_refuted", "C15_F5_refuted",
+        "C15_nonvacuous",
+    ],
     "streams": [{
         "name": "proxy", "pkg": "./internal/handler/proxy", "test": "TestVerifC15",
         "overlay": {"internal/handler/proxy/zz_verif_c15_test.go": "c15/c15_test.go"},
@@ -13,11 +20,51 @@ P = {
         "n_quick": 1200, "n_thorough": 30000, "shard": 150,
         "findings": {1: "C15-F1", 2: "C15-F2", 3: "C15-F3", 4: "C15-F4", 5: "C15-F5"},
     }],
-    "rule": "tbd",
+    "rule": "requests written byte for byte over TCP (request target of 1-4 segments built from words, percent-escapes of reserved / "
+            "unreserved / non-ASCII bytes in either hex case, reserved literals, bytes net/url re-encodes, broken escapes; queries with "
+            "repeated, encoded, empty, unparsable parameters; header names in random casing colliding with pipeline header names; "
+            "X-Forwarded-* / Forwarded / Connection fields; 14 methods; bodies with Content-Length or chunked framing) from 5 loopback source "
+            "addresses against 3 trusted_proxies configurations x rule (allow_encoded_slashes off/on/no_decode, forward_to with every "
+            "combination of scheme / strip_path_prefix (hit, miss, inside an escape) / add_path_prefix / strip_query_parameters) x pipeline "
+            "output (headers in any casing incl. Host, Cookie and forwarding names, cookies, body read) through the real proxy service, "
+            "rule factory, ruleImpl.Execute, CreateURL/Rewrite, ReverseProxy and Transport to raw TCP upstreams (plain and TLS); corpus "
+            "(every finding's witness, the non-vacuity example, edge targets) first.  Non-trivial = forwarded AND at least one of: an escaped "
+            "path met strip/add prefix, a stripped parameter was present, a client header collided with a pipeline header, the client sent "
+            "a forwarding / X-Forwarded-Method/-Uri/-Path field; distinct by hash of the input (upstream port excluded).",
     "anchors": ["internal/rules/config/backend.go", "internal/rules/config/url_rewriter.go", "internal/rules/rule_impl.go",
-                "internal/handler/proxy/request_context.go", "internal/handler/proxy/service.go"],
-    "trusted": [],
-    "level_text": "tbd",
-    "level_note": "tbd",
-    "assumptions": [],
+                "internal/handler/proxy/request_context.go", "internal/handler/proxy/service.go",
+                "internal/handler/requestcontext/extract_url.go", "internal/handler/requestcontext/extract_method.go",
+                "internal/handler/middleware/http/trustedproxy/handler.go"],
+    "trusted": [
+        "Base/GoUrl.v mirrors net/url (PathUnescape, EscapedPath, RequestURI, ParseQuery, Values.Encode); it is compared with the real "
+        "library by C08's gourl stream and, end to end, by every case of this stream",
+        "net/http server request parsing, httputil.ReverseProxy (hop-by-hop removal, stripping of client forwarding headers before Rewrite) "
+        "and http.Transport (request line = URL.RequestURI, first User-Agent value only, Accept-Encoding: gzip added, scheme must be "
+        "http/https) are MODELLED in C15/Model.v as observed, not verified",
+        "oracles in the case: whether the peer is in trusted_proxies (net.ParseCIDR/IP.Equal evaluated by the driver), and what url.Parse "
+        "makes of a trusted X-Forwarded-Uri (EscapedPath, Query().Encode()); the evaluator checks the latter is a valid well-formed path",
+        "the rule executor (rule lookup) is replaced by a stub that runs one real rule; the pipeline is a stub authenticator calling the real "
+        "AddHeaderForUpstream / AddCookieForUpstream / Body()",
+    ],
+    "level_text": "Proof (kernel-checked, closed under the global context) about an executable model of the proxy path client bytes -> request view -> "
+                  "ruleImpl.Execute/CreateURL/Rewrite -> ReverseProxy/rewriteRequest -> upstream bytes: for ALL request paths, rewrite "
+                  "configurations, header sets and pipelines (no size bound) the wire path is add_prefix ++ (raw path minus strip prefix) byte for "
+                  "byte under off/no_decode when the prefix to add is a valid encoded path; the decoded path is preserved for every setting "
+                  "(no double encoding); scheme/host/request line follow the rewrite; every header field the upstream sees is characterised name "
+                  "by name (pipeline values replace client values in any casing, X-Forwarded-Method/-Uri/-Path never pass, X-Forwarded-For or "
+                  "Forwarded is extended by the peer, other fields pass unchanged, hop-by-hop fields dropped); method and body are untouched. "
+                  "Five findings (C15-F1..F5) are proved as refutations with guards. The model is tied to the code by running both on ~1250 "
+                  "(quick) / 30000 (thorough) generated requests per run through the real proxy service and comparing method, request target, "
+                  "Host, all header fields and body at raw TCP upstream servers.",
+    "level_note": "Trusted: Coq kernel/vm_compute; the harness (generator, stub executor/authenticator, raw TCP client and upstream, Gallina rendering); "
+                  "net/http, ReverseProxy and Transport behaviour is modelled as observed. PARTIAL: the kv-level theorem for removed query "
+                  "parameters on parsable queries and the single theorem 'no guard => spec_ok' are checked per case by the evaluator "
+                  "(spec_ok on the implementation's observation) but not yet proved for all inputs; the request view (trusted X-Forwarded-Proto/"
+                  "-Uri/-Host) is taken as 'the original' request; CONNECT, Upgrade/Te/Expect, pipeline headers named like framing/hop-by-hop "
+                  "fields, cookie values needing sanitising are neither generated nor modelled.",
+    "assumptions": [
+        "the upstream speaks HTTP/1.1 (ALPN offers only http/1.1 on the TLS upstream), heimdall itself is reached without TLS",
+        "header values are sent without leading/trailing blanks; names are RFC 7230 tokens",
+        "the in-package driver uses newService, tlsClientConfig and rules.NewRuleFactory: renaming them breaks the driver, not the property",
+    ],
 }
